@@ -124,6 +124,8 @@ where
         solver_stuff: impl SolverStuff<K, V>,
         should_continue: impl std::ops::Fn() -> bool + Clone,
     ) -> V {
+        #[cfg(chalk_verif)]
+        chalk_solve::verif::tick();
         // First check the cache.
         if let Some(cache) = &self.cache {
             if let Some(value) = cache.get(goal) {
